@@ -2024,3 +2024,71 @@ def _np_isclose(ex, a, k):
     ad = z3.If(d < 0, -d, d)
     ay = z3.If(ye < 0, -ye, ye)
     return z3.simplify(ad <= z3.RealVal('1e-8') + z3.RealVal('1e-5') * ay)
+
+
+class NPFloats(list):
+    """a small concrete-length numpy float vector (np.zeros(d), np.ones(d-1)): element reads / writes only"""
+    pass
+
+
+def _np_filled(value):
+    def f(ex, a, k):
+        n = a[0]
+        if isinstance(n, (list, tuple)):
+            if len(n) != 1:
+                raise OutOfSubset('np.zeros/ones of a matrix')
+            n = n[0]
+        n = int_expr(n)
+        if is_sym(n) or not isinstance(n, int):
+            raise OutOfSubset('np.zeros/ones of symbolic length')
+        return NPFloats([float(value)] * n)
+    return f
+
+
+EXT['numpy.zeros'] = _np_filled(0.0)
+EXT['numpy.ones'] = _np_filled(1.0)
+
+
+def _opaque_real(ex, positive=False):
+    v = fresh_real('npval')
+    if positive:
+        ex.assume(v > 0)
+    return SymScalar(v, 'float', 'np.float64')
+
+
+@ext('numpy.log')
+def _np_log(ex, a, k):
+    v = a[0]
+    if isinstance(v, NPFloats):
+        return NPFloats([_opaque_real(ex) for _ in v])
+    return _opaque_real(ex)
+
+
+@ext('numpy.exp')
+def _np_exp(ex, a, k):
+    v = a[0]
+    if isinstance(v, NPFloats):
+        return NPFloats([_opaque_real(ex, True) for _ in v])
+    return _opaque_real(ex, True)
+
+
+@ext('numpy.sum')
+def _np_sum(ex, a, k):
+    v = a[0]
+    if isinstance(v, NPFloats):
+        return _opaque_real(ex)
+    raise OutOfSubset('np.sum of %s' % type(v).__name__)
+
+
+@ext('datetime.datetime.now')
+def _dt_now(ex, a, k):
+    return I.Opaque('datetime')
+
+
+_bin3 = binop
+
+
+def binop(ex, opn, l, r):   # noqa: F811
+    if isinstance(l, I.Opaque) and l.what == 'datetime' or isinstance(r, I.Opaque) and r.what == 'datetime':
+        return I.Opaque('datetime')
+    return _bin3(ex, opn, l, r)
